@@ -197,6 +197,51 @@ theorem outEdges_removeNode (g : Graph ν π) (n a : ν) (ha : a ≠ n) :
 
 end Graph
 
+/-- composing a fixed holder with two framed holders gives framed results (`holder |= sub_holder`) -/
+theorem Frame.compose (g : LGraph) {h h' : LGraph} (f : Frame h h') : Frame (g.compose h) (g.compose h') := by
+  refine ⟨?_, ?_, ?_⟩
+  · intro n t hn
+    rw [tag_compose, tag_compose, f.tags n t hn]
+  · obtain ⟨extra, he, hx⟩ := f.nodes
+    have key : ∀ (H : LGraph), nonColNodes (g.compose H) = nonColNodes g ++ (nonColNodes H).filter (fun n => !g.hasNode n) := by
+      intro H
+      simp only [nonColNodes, Graph.compose, List.filter_append, List.filter_filter]
+      congr 1
+      apply List.filter_congr
+      intro n _
+      exact Bool.and_comm _ _
+    refine ⟨extra.filter (fun n => !g.hasNode n), ?_, ?_⟩
+    · rw [key h', key h, he, List.filter_append, List.append_assoc]
+    · intro n hn
+      have hn' := List.mem_filter.mp hn
+      rw [mem_nodes_compose]
+      rintro (a | a)
+      · simp [hasNode, a] at hn'
+      · exact hx n hn'.1 a
+  · intro u v hu hv
+    have e1 := f.edges u v hu hv
+    refine ⟨?_, ?_⟩
+    · rw [mem_edges_compose, mem_edges_compose, e1.1]
+    · have hh : h'.hasEdge u v = h.hasEdge u v := by
+        have := e1.1
+        simp only [hasEdge]
+        by_cases x : (u, v) ∈ h.edges
+        · simp [x, this.mpr x]
+        · simp [x, mt this.mp x]
+      have hty := e1.2
+      simp only [Graph.ety, hh] at hty
+      simp only [Graph.ety, Graph.compose, hasEdge, List.contains_iff_mem, List.mem_append, List.mem_filter]
+      have hE : ((u, v) ∈ g.edges ∨ (u, v) ∈ h'.edges ∧ (!decide ((u, v) ∈ g.edges)) = true) ↔
+          ((u, v) ∈ g.edges ∨ (u, v) ∈ h.edges ∧ (!decide ((u, v) ∈ g.edges)) = true) := by rw [e1.1]
+      by_cases x : (u, v) ∈ h.edges
+      · have x' := e1.1.mpr x
+        have hx : h.hasEdge u v = true := by simpa [hasEdge] using x
+        rw [hx] at hty
+        simp only [if_true, Option.some.injEq] at hty
+        simp [x, x', hty]
+      · have x' := mt e1.1.mp x
+        simp [x, x']
+
 /-! ### what the frame preserves -/
 
 private theorem filterMap_dsOf_nonCol (P : Node → Bool) (l : List Node) :
